@@ -35,6 +35,14 @@ func relevant(cl *Clause, prop string) bool {
 		return true
 	}
 	if len(cl.Props) == 0 {
+		if len(cl.OnlyUnder) > 0 {
+			for _, p := range cl.OnlyUnder {
+				if p == prop {
+					return true
+				}
+			}
+			return false
+		}
 		return !(cl.SkipSweep && (prop == "C18" || prop == "C20"))
 	}
 	for _, p := range cl.Props {
